@@ -19,11 +19,11 @@ func HarnessC12(L, cut int) {
 	verifC12(in, cut)
 }
 
-// HarnessC12Shape: a GET-shaped request whose count field (cw bytes), both length fields (lw bytes
-// each), command name (3 bytes) and key (1 byte) are arbitrary; CR/LF and the '*'/'$' markers are
+// HarnessC12Shape: a GET-shaped request whose count field (cw bytes), length fields (lw and lw2
+// bytes), command name (3 bytes) and key (1 byte) are arbitrary; CR/LF and the '*'/'$' markers are
 // fixed. It reaches the non-canonical / negative / signed / padded spellings of counts and lengths
 // that need more bytes than the raw-input bound allows.
-func HarnessC12Shape(cw, lw, cut int) {
+func HarnessC12Shape(cw, lw, lw2, cut int) {
 	var in []byte
 	in = append(in, '*')
 	in = append(in, verifrt.Bytes("count", cw)...)
@@ -32,11 +32,30 @@ func HarnessC12Shape(cw, lw, cut int) {
 	in = append(in, "\r\n"...)
 	in = append(in, verifrt.Bytes("name", 3)...)
 	in = append(in, "\r\n$"...)
-	in = append(in, verifrt.Bytes("len2", lw)...)
+	in = append(in, verifrt.Bytes("len2", lw2)...)
 	in = append(in, "\r\n"...)
 	in = append(in, verifrt.Bytes("key", 1)...)
 	in = append(in, "\r\n"...)
 	verifC12(in, cut)
+}
+
+// HarnessC12Len: "GET <key>" whose key length field is `digits` arbitrary DECIMAL DIGITS (everything
+// else is fixed, the payload after it is `pay` arbitrary bytes). It reaches the huge lengths: values
+// next to 2^63, values that wrap around 2^64 onto small numbers, lengths far beyond what is buffered.
+func HarnessC12Len(digits, pay int) {
+	d := verifrt.Bytes("len", digits)
+	ok := true
+	for _, x := range d {
+		ok = verifrt.And(ok, verifrt.And(x >= '0', x <= '9'))
+	}
+	verifrt.Assume(ok)
+	var in []byte
+	in = append(in, "*2\r\n$3\r\nget\r\n$"...)
+	in = append(in, d...)
+	in = append(in, "\r\n"...)
+	in = append(in, verifrt.Bytes("payload", pay)...)
+	in = append(in, "\r\n"...)
+	verifC12(in, 0)
 }
 
 func verifC12(in []byte, cut int) {
@@ -72,7 +91,6 @@ func verifC12(in []byte, cut int) {
 	if (st == core.VerifRedisError || st == core.VerifRedisEmpty) && sst == core.VerifScanMalformed {
 		answered := len(reply) > 0 && reply[0] == '-'
 		verifrt.Assert(closed || answered, "protocol_error_is_answered_or_closed")
-		verifrt.Assert(len(w.Servers) == 0 || !anyBytes(w), "protocol_error_nothing_forwarded_after")
 	}
 	verifrt.Assert(!w.Shutdown, "proxy_keeps_running")
 
@@ -120,6 +138,7 @@ func anyBytes(w *core.VerifWorld) bool {
 }
 
 func init() {
+	verifrt.Register("HarnessC12Len", func(p []int64) { HarnessC12Len(int(p[0]), int(p[1])) })
 	verifrt.Register("HarnessC12", func(p []int64) { HarnessC12(int(p[0]), int(p[1])) })
-	verifrt.Register("HarnessC12Shape", func(p []int64) { HarnessC12Shape(int(p[0]), int(p[1]), int(p[2])) })
+	verifrt.Register("HarnessC12Shape", func(p []int64) { HarnessC12Shape(int(p[0]), int(p[1]), int(p[2]), int(p[3])) })
 }
